@@ -1,10 +1,15 @@
 (* C09 — The generated downgrade undoes the generated upgrade.  Statements only. *)
-From AV Require Import Model.Ops Spec.C09 Model.C09Ddl Proofs.OpsProof Proofs.C09UndoProof.
+From AV Require Import Model.Ops Spec.C09 Model.C09Ddl Proofs.OpsProof Proofs.C09UndoProof Proofs.C09ExactProof.
 
 (* The decider applied to the implementation's output is sound for the property. *)
 Theorem C09_decider_sound : forall i o, check_C09 i o = true -> C09_holds i o.
 Proof. exact check_C09_sound. Qed.
 Print Assumptions C09_decider_sound.
+
+(* ... and complete: the decider says yes exactly when the property holds of the implementation's output. *)
+Theorem C09_decider_complete : forall i o, C09_holds i o -> check_C09 i o = true.
+Proof. exact check_C09_complete. Qed.
+Print Assumptions C09_decider_complete.
 
 (* For every list of operations (leaf operations and ModifyTableOps containers) whose reversal
    succeeds: the reversed list has the inverse kinds in reverse order, containers included. *)
@@ -23,6 +28,35 @@ Theorem C09_involutive_ops_partial : forall up down, forallb roundtrip_safe_top 
   exists up', reverse_ops down = Ok up' /\ Forall2 ddl_equiv_top up' up.
 Proof. exact reverse_ops_involutive. Qed.
 Print Assumptions C09_involutive_ops_partial.
+
+(* Full strength on exact_class (roundtrip_safe and the stored original in the shape from_* gives it):
+   reversing twice gives back the very operation object, field by field. *)
+Theorem C09_reverse_involution : forall o, exact_class o = true -> bind (reverse o) reverse = Ok o.
+Proof. exact reverse_twice_exact. Qed.
+Print Assumptions C09_reverse_involution.
+(* Outside exact_class (inside roundtrip_safe) equality on the nose is false although the DDL is the same. *)
+Theorem C09_reverse_involution_refuted : roundtrip_safe w_inexact = true /\ exact_class w_inexact = false /\
+  exists o'', bind (reverse w_inexact) reverse = Ok o'' /\ o'' <> w_inexact /\ ddl_equiv o'' w_inexact.
+Proof. exact inexact_witness. Qed.
+Print Assumptions C09_reverse_involution_refuted.
+
+(* The names of the diff tuples (what compare_metadata reports) of a reversed operation are the inverse names,
+   add_table_comment / remove_table_comment counted as one family. *)
+Theorem C09_diff_tags : forall o o' d, roundtrip_safe o = true -> reverse o = Ok o' -> to_diff_tuple o = Ok d ->
+  exists d', to_diff_tuple o' = Ok d' /\ map comment_family (diff_tags d') = map comment_family (map inverse_tag (diff_tags d)).
+Proof. exact reverse_diff_tags. Qed.
+Print Assumptions C09_diff_tags.
+
+(* The diff tuples themselves: what as_diffs() reports for the reversed operation or container is, tuple by tuple and in
+   reverse order, the inverse report (same object added/removed; for alter_column the old and new value exchanged and the
+   other existing_ values as they are after the change), and one tuple is reported per leaf operation. *)
+Theorem C09_diffs_inverse : forall x x' ds, diff_safe_top x = true -> reverse_top x = Ok x' -> as_diffs [x] = Ok ds ->
+  exists ds', as_diffs [x'] = Ok ds' /\ Forall2 inv_diff (rev ds) ds'.
+Proof. exact top_inv_diff. Qed.
+Print Assumptions C09_diffs_inverse.
+Theorem C09_diffs_complete : forall x ds, as_diffs [x] = Ok ds -> length ds = leaf_count x.
+Proof. exact as_diffs_length. Qed.
+Print Assumptions C09_diffs_complete.
 
 (* Main theorem: the model's output satisfies the property on the class. *)
 Theorem C09_model_holds : forall i, inclass_C09 i = true -> C09_holds i (model_C09 i).
@@ -70,6 +104,19 @@ Theorem C09_undo : forall up A, wf_db A -> undoable_ops up A = true ->
 Proof. exact undo_ops. Qed.
 Print Assumptions C09_undo.
 
+(* One operation: its abstract effect followed by the abstract effect of its reversal restores the state. *)
+Theorem C09_undo_op : forall o A, wf_db A -> undoable_op o A = true ->
+  exists o' B, reverse o = Ok o' /\ apply_op o A = Some B /\ apply_op o' B = Some A /\ wf_db B.
+Proof. exact undo_op. Qed.
+Print Assumptions C09_undo_op.
+(* Without the hypothesis it is false of the faithful model: DropTableCommentOp('t') without existing_comment. *)
+Theorem C09_undo_refuted :
+  wf_db w_undo_db /\ undoable_op w_undo_op w_undo_db = false /\
+  exists o' B, reverse w_undo_op = Ok o' /\ apply_op w_undo_op w_undo_db = Some B /\
+               exists C, apply_op o' B = Some C /\ C <> w_undo_db.
+Proof. exact undo_refuted_witness. Qed.
+Print Assumptions C09_undo_refuted.
+
 (* ------------------------------------------------------------------ non-vacuity *)
 
 (* deferrable=False (repaired by ea71f11) is inside the class *)
@@ -114,4 +161,19 @@ Proof. split; vm_compute; reflexivity. Qed.
 Example C09_auto_decider_rejects :
   let up := [ModifyTableOps [116] None [DropTableCommentOp [116] None None]] in
   check_C09 (InAuto nv_tables up) (model_C09 (InAuto nv_tables up)) = false.
+Proof. vm_compute. reflexivity. Qed.
+
+(* exact_class has an inhabitant of every reversible class *)
+Example C09_exact_nonvacuous :
+  forallb exact_class
+    [ AddConstraintOp (CreateForeignKeyOp (Some [102]) [116] [116] [[98]] [[97]] None None (mkFkO (Some [67]) None None None (Some false)) 3);
+      DropConstraintOp (Some [117]) [116] (Some TyUnique) None (Some (CreateUniqueConstraintOp (Some [117]) [116] [[122]] None (Some false) None 6));
+      CreateIndexOp (mkCI (Some [105]) [116] [IxCol [98]; IxText 5] None true None 2);
+      DropIndexOp (Some [105]) (Some [116]) None None (Some true) 2 (Some (mkCI (Some [105]) [116] [IxCol [98]] None true None 2));
+      CreateTableOp (mkT [116] None [mkCol [97] 1 false None None false false] [CPk None [116] None [[97]] 0] [] (Some [99]) [[84]] 4) None true;
+      DropTableOp [116] None None (Some [99]) [] 4 (Some (mkTRev [mkCol [97] 1 false None None false false] [CPk None [116] None [[97]] 0] true));
+      CreateTableCommentOp [116] (Some [110]) (Some [99]) None; DropTableCommentOp [116] (Some [99]) None;
+      AlterColumnOp (mkAC [116] [98] None (Some 2) (SetTo (Some 3)) (Some true) None (Some false) (SetTo (Some [120])) (SetTo None) (Some [100]) (Some 4) 0);
+      AddColumnOp [116] (mkCol [98] 2 true (Some 3) None true true) None;
+      DropColumnOp [116] [98] None 0 (Some ([116], mkCol [98] 2 true None None false false, None)) ] = true.
 Proof. vm_compute. reflexivity. Qed.
